@@ -38,6 +38,7 @@ class Exec:
         self.max_paths = max_paths
         self.decls, self.side, self.n = [], [], 0
         self.paths, self.cut = [], 0
+        self.created = {}           # opaque id -> number of logged events on the path at the time it was created
         self.iter_src = {}          # iterator-instance opaque id -> the collection value it walks
         self.proj = {}              # (base opaque id, projection text) -> opaque id: the same field read twice is the same value
         self.lens = {}              # opaque id -> SMT Int term of its length (Vec / slice / str)
@@ -90,6 +91,7 @@ class Exec:
     def opq(self):
         """fresh opaque value WITH an identity (so that 'the same value' can be recognised along a path)"""
         self.n += 1
+        self.created[self.n] = len(getattr(self, "cur_events", ()) or ())     # how many events the path had when it appeared
         return ("opaque", self.n)
 
     def havoc(self, ty):
@@ -408,6 +410,7 @@ class Exec:
             st = st.rstrip(";")
             if st.startswith(("StorageLive", "StorageDead", "nop", "FakeRead", "PlaceMention", "AscribeUserType", "Retag", "Coverage")):
                 continue
+            self.cur_events = events
             if st == "return":
                 self.paths.append(Path(pc, events, "return", env.get("_0"), env))
                 return
@@ -470,7 +473,7 @@ class Exec:
                 self.cur_events, self.cur_callee, self.cur_pc = events, callee, pc
                 res = model(self, argv) if model else self.havoc(self.locs.get(dst))
                 env[dst] = res
-                if model or name in self.log_calls:
+                if model or name in self.log_calls or "*" in self.log_calls:
                     events = events + (("call", name, argv, res, len(pc), callee),)
                 return self._go(ret, env, pc, events, visits)
             m = re.match(r"^(_\d+) = (?:core::panicking::)?(?:panic\w*|unreachable_display|expect_failed|unwrap_failed)\((.*)\) -> .*$", st)
@@ -702,7 +705,7 @@ def m_ne(ex, argv):
     return ("bool", f"(not {r[1]})")
 
 
-COMMON_MODELS = {"len": m_len, "is_empty": m_is_empty, "index": m_index, "eq": m_eq, "ne": m_ne, "clone": m_identity, "deref": m_identity, "as_ref": m_identity, "borrow": m_identity,
+COMMON_MODELS = {"len": m_len, "is_empty": m_is_empty, "index": m_index, "eq": m_eq, "ne": m_ne, "clone": m_identity, "deref": m_identity, "deref_mut": m_identity, "as_ref": m_identity, "borrow": m_identity,
                  "branch": m_try_branch, "from_residual": m_from_residual, "next": m_option,
                  "into_iter": m_identity, "iter": m_identity, "enumerate": m_identity, "must_use": m_identity,
                  "start_record": m_result_unit, "end_record": m_result_unit}
